@@ -234,7 +234,9 @@ def run(chk):
     codec.check_inplace(chk, "C06", 200 if chk.tier == "quick" else 3000)
     codec.check_layouts(chk, "C06", 240 if chk.tier == "quick" else 3000)
     codec.check_trimmed(chk, "C06", 96 if chk.tier == "quick" else 1200)
+    codec.check_partial_gaps(chk, "C06", 45 if chk.tier == "quick" else 600)
     codec.check_stray_attributes(chk, "C06", 30 if chk.tier == "quick" else 400)
+    codec.check_reassigned_arrays(chk, "C06", 60 if chk.tier == "quick" else 800)
     check_noncanonical(chk)
     check_capture(chk)
     check_container_bytes(chk)
